@@ -84,7 +84,7 @@ TIERS = {
         "ref": {"alphabet": "AC",
                 "named": [{"ref_max": 3, "other_max": 4, "k": 2, "positions": [0], "settings": ["gappy"]}],
                 "longest": [{"max_len": 3, "k": 2, "settings": ["gappy"]}]},
-        "prog": {"alphabet": "AC", "max_len": 3, "trees": ["((a,b),c)"], "indel_rates": [0.1],
+        "prog": {"alphabet": "AC", "max_len": 3, "trees": ["((a,b),c)", "(c,(a,b))"], "indel_rates": [0.1],
                  "app_tree": "(a:0.1,(b:0.2,c:0.1):0.1)", "none_tree": True, "root_score": ["((a,b),c)"]},
     },
     "thorough": {
@@ -687,6 +687,16 @@ def check_prog(seqs, tree, indel_rate, via, acc, root_score=False):
         except Exception as ex:  # noqa: BLE001
             acc.fail(f"progressive pair-HMM (root Viterbi): raised {type(ex).__name__}", case, {"msg": str(ex)[:200]})
             return
+        # the same guide tree with the children of its root written in the other order (tip first, sub-alignment second)
+        mirror = {"((a,b),c)": "(c,(a,b))", "(a,(b,c))": "((b,c),a)", "((a,c),b)": "(b,(a,c))"}.get(tree)
+        if mirror:
+            try:
+                sm, _am = _root_viterbi(coll, make_tree(mirror), indel_rate, 0.1, HUGE)
+                if abs(sm - sf) > TOL_SAME:
+                    acc.fail("progressive pair-HMM (root Viterbi): score depends on the order in which the children of the guide tree's root are written",
+                             case, {"as given": sf, "children swapped": sm, "mirror": mirror})
+            except Exception as ex:  # noqa: BLE001
+                acc.fail(f"progressive pair-HMM (root Viterbi): raised {type(ex).__name__} [children swapped]", case, {"msg": str(ex)[:200]})
         child = _cherry(tree)
         rf = [af[n] for n in names]
         rh = [ah[n] for n in names]
